@@ -29,6 +29,7 @@ pub static SCENARIOS: &[ScenarioDef] = &[
     scen!("seq/wcell", wcell, "C09: every short operation sequence on one AtomicWeak against a (pointer, tag) cell"),
     scen!("seq/latency", latency, "C06: epochs needed to reclaim a structure of n nodes"),
     scen!("seq/cascade-decision", cascade_decision, "C12: the immediate-reclamation decision against true stamp ages"),
+    scen!("seq/conv", conv, "every owner-creating conversion (From impls, AtomicRc::new/take, AtomicWeak::get_mut) x release order x round placement"),
 ];
 
 fn base(p: &Params) -> Program {
@@ -1376,6 +1377,204 @@ fn cascade_decision(p: &Params) -> Program {
             if let Some(x) = extra.take() {
                 c.drop_rc(x);
             }
+        })),
+        ..base(p)
+    }
+}
+
+// ------------------------------------------------------------------------------ conversions
+
+/// Conversions between the pointer kinds that create or move an owner without going through the
+/// operations the other families use: `From` impls, `AtomicRc::new/take`, `AtomicWeak::get_mut`.
+pub const CONV_KINDS: usize = 12;
+pub fn conv_cases() -> i64 {
+    (CONV_KINDS * 2 * 9) as i64
+}
+
+enum Produced {
+    R(Rc<Node>),
+    W(Weak<Node>),
+    Cell(Box<circ::AtomicRc<Node>>),
+    WCell(Box<circ::AtomicWeak<Node>>),
+}
+
+fn conv(p: &Params) -> Program {
+    let mut k = p.get("case", 0) as usize;
+    let kind = k % CONV_KINDS;
+    k /= CONV_KINDS;
+    let produced_first = k % 2 == 0;
+    k /= 2;
+    let r1 = [0usize, 1, 4][k % 3];
+    let r2 = [0usize, 1, 4][(k / 3) % 3];
+    // `only`: bit mask of the conversion kinds to run (0 = all)
+    let only = p.get("only", 0);
+    if only != 0 && only & (1 << kind) == 0 {
+        return Program {
+            setup: Some(body(|_, _| {
+                mon().cover("skipped-not-selected");
+            })),
+            ..base(p)
+        };
+    }
+    Program {
+        setup: Some(body(move |c, w| {
+            use circ::{AtomicRc, AtomicWeak, WeakSnapshot};
+            let g = c.pin();
+            let hy = c.new_node(2);
+            let hx = c.new_node(1);
+            c.store(&c.node(&hx).next[0], c.clone_rc(&hy), &g);
+            c.store(&w.roots[0], c.clone_rc(&hx), &g);
+            c.wstore(&w.wroots[0], c.downgrade(&hx), &g);
+            let reg = |cell: &AtomicRc<Node>| mon().register_cell(cell as *const _ as usize, cv::link_word(cell), false);
+            let wreg = |cell: &AtomicWeak<Node>| mon().register_cell(cell as *const _ as usize, cv::wlink_word(cell), true);
+            let produced = match kind {
+                0 => {
+                    let s = c.load(&w.roots[0], &g);
+                    let r = Rc::from(s.s);
+                    mon().acquire(cv::rc_word(&r), false);
+                    Produced::R(r)
+                }
+                1 => {
+                    let s = c.load(&w.roots[0], &g);
+                    let wk = Weak::from(s.s);
+                    mon().acquire(cv::weak_word(&wk), true);
+                    Produced::W(wk)
+                }
+                2 => {
+                    let ws = c.wload(&w.wroots[0], &g);
+                    let wk = Weak::from(ws.s);
+                    mon().acquire(cv::weak_word(&wk), true);
+                    Produced::W(wk)
+                }
+                3 => {
+                    let s = c.load(&w.roots[0], &g);
+                    let ws = WeakSnapshot::from(s.s);
+                    mon().hold(c.t, g.gid, cv::weak_snapshot_word(&ws), true);
+                    Produced::W(c.ws_counted(crate::world::TWS { s: ws, gid: g.gid }))
+                }
+                4 => {
+                    let cell = Box::new(AtomicRc::from(&hx));
+                    reg(&cell);
+                    Produced::Cell(cell)
+                }
+                5 => {
+                    let r = c.clone_rc(&hx);
+                    mon().release(cv::rc_word(&r), false);
+                    let cell = Box::new(AtomicRc::from(r));
+                    reg(&cell);
+                    Produced::Cell(cell)
+                }
+                6 => {
+                    let wk = c.downgrade(&hx);
+                    mon().release(cv::weak_word(&wk), true);
+                    let cell = Box::new(AtomicWeak::from(wk));
+                    wreg(&cell);
+                    Produced::WCell(cell)
+                }
+                7 => {
+                    let wk = c.downgrade(&hx);
+                    let cell = Box::new(AtomicWeak::from(&wk));
+                    wreg(&cell);
+                    c.wdrop(wk);
+                    Produced::WCell(cell)
+                }
+                8 => {
+                    let cell = Box::new(AtomicWeak::from(&hx));
+                    wreg(&cell);
+                    Produced::WCell(cell)
+                }
+                9 => {
+                    // the cell first refers to y; exclusive access replaces that by x
+                    let mut cell = Box::new(AtomicWeak::from(&hy));
+                    wreg(&cell);
+                    let wk = c.downgrade(&hx);
+                    let word = cv::weak_word(&wk);
+                    mon().release(word, true);
+                    *cell.get_mut() = wk;
+                    mon().cell_assign(&*cell as *const _ as usize, word);
+                    Produced::WCell(cell)
+                }
+                10 => {
+                    let mut cell = Box::new(AtomicRc::from(&hx));
+                    reg(&cell);
+                    mon().cur_op[c.t] = crate::monitor::CurOp::SwapLike;
+                    let r = cell.take();
+                    mon().settle(c.t, false, true);
+                    drop(cell);
+                    Produced::R(r)
+                }
+                _ => {
+                    // a new object owned by nothing but the link
+                    let before = mon().objs.len();
+                    let cell = Box::new(AtomicRc::new(Ctx::plain_node(3)));
+                    let m = mon();
+                    if m.objs.len() == before + 1 {
+                        let addr = m.objs[before].addr;
+                        let s = cell.load(std::sync::atomic::Ordering::SeqCst, &g.g);
+                        c.adopt_new(addr, 3, unsafe { s.deref() });
+                    }
+                    reg(&cell);
+                    Produced::Cell(cell)
+                }
+            };
+            c.unpin(g);
+            let release_produced = |c: &Ctx, pr: Produced| match pr {
+                Produced::R(r) => {
+                    c.deref(&r);
+                    c.drop_rc(r);
+                }
+                Produced::W(wk) => {
+                    if let Some(r) = c.upgrade(&wk) {
+                        c.deref(&r);
+                        c.drop_rc(r);
+                    }
+                    c.wdrop(wk);
+                }
+                Produced::Cell(cell) => {
+                    let g = c.pin();
+                    let s = c.load(&cell, &g);
+                    if !s.s.is_null() {
+                        c.sderef(s);
+                        let r = c.counted(s);
+                        c.deref(&r);
+                        c.drop_rc(r);
+                    } else {
+                        mon().violate("C08", "cell-semantics", "a link built from an object is null".into());
+                    }
+                    c.unpin(g);
+                    drop(cell);
+                }
+                Produced::WCell(cell) => {
+                    let g = c.pin();
+                    let ws = c.wload(&cell, &g);
+                    if ws.s.is_null() {
+                        mon().violate("C09", "cell-semantics", "a weak link built from an object is null".into());
+                    } else if let Some(s) = c.ws_upgrade(ws) {
+                        c.sderef(s);
+                    }
+                    c.unpin(g);
+                    drop(cell);
+                }
+            };
+            let release_originals = |c: &Ctx, hx: Rc<Node>, hy: Rc<Node>| {
+                let g = c.pin();
+                c.drop_rc(hx);
+                c.drop_rc(hy);
+                c.store(&w.roots[0], Rc::null(), &g);
+                c.wstore(&w.wroots[0], Weak::null(), &g);
+                c.unpin(g);
+            };
+            c.rounds(r1);
+            if produced_first {
+                release_produced(c, produced);
+                c.rounds(r2);
+                release_originals(c, hx, hy);
+            } else {
+                release_originals(c, hx, hy);
+                c.rounds(r2);
+                release_produced(c, produced);
+            }
+            c.rounds(4);
         })),
         ..base(p)
     }
